@@ -92,6 +92,7 @@ type c05Mut struct {
 	// raw mutates the final bytes
 	raw       func(b []byte, rng *rand.Rand) []byte
 	fromOther bool
+	otherPort bool // with fromOther: the server's address, another port
 	// verdict: computed from the final datagram by the predicate unless forced
 	forceBad bool
 }
@@ -168,6 +169,7 @@ func c05HeaderMuts(rng *rand.Rand, full bool) []c05Mut {
 			f.Poll, f.Precision, f.RootDelay, f.Dispersion, f.RefID, f.Reference = int8(rng.IntN(256)), int8(rng.IntN(256)), rng.Uint32(), rng.Uint32(), rng.Uint32(), rng.Uint64()
 		}},
 		c05Mut{name: "from another source address", fromOther: true},
+		c05Mut{name: "from another port of the server's address", fromOther: true, otherPort: true},
 		c05Mut{name: "random 48 bytes", raw: func(b []byte, rng *rand.Rand) []byte { return randBytes(rng, 48) }},
 		c05Mut{name: "request echoed back", raw: func(b []byte, rng *rand.Rand) []byte { return nil }}, // filled by the sender with the request bytes
 	)
@@ -372,7 +374,9 @@ func (p *c05Peer) handle(s *peer.NTPServer, dg []byte, from netip.AddrPort, rx t
 		if p.wrap != nil {
 			out = p.wrap(b, rq, m)
 		}
-		if m.fromOther && p.wrap == nil {
+		if m.fromOther && m.otherPort && p.wrap == nil {
+			_ = s.SendFromOtherPort(from, out)
+		} else if m.fromOther && p.wrap == nil {
 			_ = s.SendFrom(p.other, from, out)
 		} else {
 			s.Send(from, out)
